@@ -3,8 +3,10 @@ C11 — property theorems (TSQL select).  Only property statements live here; th
 the normal form `nf`, `leaves` and all helper lemmas are in Lemmas.lean.
 -/
 import Verif.C11.Lemmas
+import Verif.Generated.TablesC11
 
 namespace Verif.C11
+open Verif.Tables
 
 /-! ### join -/
 
@@ -334,5 +336,107 @@ example : (planJoins
        { name := "parse", fields := [⟨"parse-id", .integer, true⟩, ⟨"run-id", .integer, true⟩, ⟨"i-id", .integer, true⟩], rows := [] }]
       [("item", "i-id"), ("run", "run-id")] [] []).toOption.map (·.joins)
     = some [("item", ["i-id"]), ("parse", ["parse-id", "run-id", "i-id"]), ("run", ["run-id"])] := by decide
+
+
+/-! ## Pins: the constants of the anchored code that the hand-written model mirrors
+
+`Generated/TablesC11.lean` is rewritten on every run by `harness/c11.py` (`tables()`) from the live
+objects of `delphin.tsql` (and the two `util`/`tsdb` helpers it leans on).  What is pinned, and which
+model definitions hand-code it:
+
+* `c11LexerTokens`, `c11LexerFlags` — the (regex, class) pairs of `_TSQLLexer.tokens` in order and the
+  flags of the compiled alternation: `lexAt`/`lexWord`/`lexNum`/`lexSym` (class order, keyword
+  spellings `kwFrom … kwNow`, operator spellings), `strBody`, `matchYMD`/`matchDMY`/`monthOpts`/
+  `dayPart`/`yearPart`/`timeTail` (the two date patterns), `stripSign` + digit run (INT), `idRun`
+  (ID/QID), `isSpaceC` (`\s` of the UNEXPECTED class); `opLexeme`, `lexeme`, `printable` in Lemmas.
+* `c11Operators` — keys of `_operator_functions` and the `operator` function each maps to:
+  `Op`, `RawOp.norm`, `cmpOrd`/`compareVal`.
+* `c11FnConsts` — per function the constants of its code object (nested functions flattened,
+  docstrings and message texts dropped): `'select'/'retrieve'`, the `'.'` sentinel and `'*'`
+  (`parseSelect`, `parseProj`), `'and'/'or'/'not'` and the 0/1 length tests (`mkJunction`,
+  `whereCond`, `parseDisjList`/`parseConjList`/`parseAtom`), `'='→'=='` and the operator groups
+  `('~','!~')`, `('<','<=','>','>=')`, `':date'` (`parseStmt`, `litAllowed`), `'inner'` (`joinStep`
+  is the inner join), the `'.'` of qualified names (`resolve`, `Key.q`, `qstr`), `reverse=True`
+  (`preferred`), `len(keys) > 1` and `> 1` components (`pivotLoop`), `(and,or)`/`not`
+  (`resolveCond`, `condFields`, `evalCond`), the datatype names of `_expected_type` (`litType`,
+  `DType`), `cast=True` (`keyOf` uses cast values), `'left'` (not modelled: `_select` passes `'inner'`).
+* `c11FnGlobals` — the globals each parser function loads, in order: the token classes offered to
+  `choice_type`/`accept_type`/`expect_type` (`parseProj`, `parseFrom`, `parseWheres`, `parseAtom`,
+  `tokLit` + `litAllowed`: strings for `~ !~`, int/date for the ordering operators, all three for
+  `== !=`), the trailing-`.` loop of `_parse_select`, and the Python types of `_expected_type`.
+* `c11Defaults` — `_join(how='inner')`, `select(record_class=None)`, `Selection.select(cast=False)`,
+  the 1024-token look-ahead buffer (the lexer runs ahead of the parser: an UNEXPECTED character
+  anywhere in a query of fewer tokens is a syntax error, as in `lexLine`), `select_from(columns=None,
+  cast=False)`.
+* `c11PrelexConsts`, `c11FieldInitConsts` — `Lexer.prelex` (line numbering from 1) and the key flags
+  `:key`/`:primary`/`:foreign…` behind `Field.isKey`.
+
+A change to any of these makes this theorem stop checking; the check then reports a broken proof
+obligation and searches for a failing input. -/
+theorem c11_pins :
+    c11LexerTokens =
+      ([
+        ("from", "FROM"),
+        ("where", "WHERE"),
+        ("report", "REPORT"),
+        ("\\*", "STAR"),
+        ("\\.", "DOT"),
+        ("==|=|!=|~|!~|<=|<|>=|>", "OP"),
+        ("&&|&|and", "AND"),
+        ("\\|\\||\\||or", "OR"),
+        ("!|not", "NOT"),
+        ("\\(", "LPAREN"),
+        ("\\)", "RPAREN"),
+        ("\"([^\"\\\\]*(?:\\\\.[^\"\\\\]*)*)\"", "DQSTRING"),
+        ("'([^'\\\\]*(?:\\\\.[^'\\\\]*)*)'", "SQSTRING"),
+        ("[0-9]{4}-(?:[0-9][0-9]?|jan|feb|mar|apr|may|jun|jul|aug|sep|oct|nov|dec)(?:-[0-9]{1,2})?(?:\\s*\\([0-9]{2}:[0-9]{2}(?::[0-9]{2})?\\)|\\s+[0-9]{2}:[0-9]{2}(?::[0-9]{2}))?", "YYYYMMDD"),
+        ("(?:[0-9]{1,2}-)?(?:[0-9][0-9]?|jan|feb|mar|apr|may|jun|jul|aug|sep|oct|nov|dec)-(?:[0-9]{2})?[0-9]{2}(?:\\s*\\([0-9]{2}:[0-9]{2}(?::[0-9]{2})?\\)|\\s+[0-9]{2}:[0-9]{2}(?::[0-9]{2}))?", "DDMMYY"),
+        (":today|now", "KWDATE"),
+        ("[+-]?\\d+", "INT"),
+        ("[a-zA-Z][-_a-zA-Z0-9]*\\.[a-zA-Z][-_a-zA-Z0-9]*", "QID"),
+        ("[a-zA-Z][-_a-zA-Z0-9]*", "ID"),
+        ("[^\\s]", "UNEXPECTED")] : List (String × String))
+    ∧ c11LexerFlags =
+      (32 : Nat)
+    ∧ c11Operators =
+      ([("==", "eq"), ("!=", "ne"), ("<", "lt"), ("<=", "le"), (">", "gt"), (">=", "ge")] : List (String × String))
+    ∧ c11FnConsts =
+      ([
+        ("_parse_query", ["None", " ", "(select,retrieve)", "'", "1", "(lineno)"]),
+        ("_parse_select", ["None", ".", "*", "(text)", "select", "(type,projection,relations,condition)"]),
+        ("_parse_select_where", ["None", "1", "0", "and"]),
+        ("_parse_condition_disjunction", ["None", "0", "1", "or"]),
+        ("_parse_condition_conjunction", ["None", "not", "0", "1", "and"]),
+        ("_parse_condition_statement", ["None", "=", "==", "(~,!~)", "(<,<=,>,>=)", ":date"]),
+        ("_select", ["None", "(record_class)", "inner"]),
+        ("_make_execution_plan", ["*", "0", "None"]),
+        ("_project_all", ["None", "."]),
+        ("_make_qname_resolver", ["True", "(key,reverse)", "colname", "return", "<resolve>", "None", ".", "0"]),
+        ("_plan_joins", [".", "False", "True"]),
+        ("_pivot_relations", ["<add_edges>", "None", "1", "1", "False", "<<genexpr>>", "1", "0", "None", "True"]),
+        ("_process_condition_fields", ["None", "(and,or)", "not", "0", "1"]),
+        ("_expected_type", ["None", ":string", ":integer", ":float", ":date"]),
+        ("_process_condition_function", ["None", "(and,or)", "and", "<func>", "None", "<<genexpr>>", "None", "not", "<func>", "None", "~", "<func>", "None", "0", "1", "!~", "<func>", "None", "0", "1", "<func>", "None", "0", "1"]),
+        ("_join", ["(inner,left)", "None", "True", "(cast)", "cast", "left"]),
+        ("_merge_fields", ["None", "."]),
+        ("select", ["projection", "relations", "condition", "(record_class)"]),
+        ("query", ["type", "(select,retrieve)", "projection", "relations", "condition", "record_class", "None", "(record_class)", "(text)"])] : List (String × List String))
+    ∧ c11FnGlobals =
+      ([
+        ("_parse_select", ["_TSQLLexer", "_parse_select_projection", "_parse_select_from", "_parse_select_where", "_DOT", "_DOT", "StopIteration", "TSQLSyntaxError"]),
+        ("_parse_select_projection", ["_STAR", "_QID", "_ID", "_QID", "_ID", "_QID", "_ID"]),
+        ("_parse_select_from", ["_FROM", "_ID", "_ID"]),
+        ("_parse_select_where", ["_WHERE", "_parse_condition_disjunction", "_WHERE", "len", "len", "list"]),
+        ("_parse_condition_disjunction", ["_parse_condition_conjunction", "_OR", "len", "TSQLSyntaxError", "len", "list"]),
+        ("_parse_condition_conjunction", ["_NOT", "_LPAREN", "_QID", "_ID", "_NOT", "_parse_condition_disjunction", "_LPAREN", "_parse_condition_disjunction", "_RPAREN", "_QID", "_ID", "_parse_condition_statement", "_AND", "len", "TSQLSyntaxError", "len", "list"]),
+        ("_parse_condition_statement", ["_OP", "_DQSTRING", "_SQSTRING", "_INT", "_YYYYMMDD", "_DDMMYY", "_KWDATE", "_INT", "_DQSTRING", "_SQSTRING", "_YYYYMMDD", "_DDMMYY", "_KWDATE", "_INT", "int", "_YYYYMMDD", "_DDMMYY", "_KWDATE", "tsdb"]),
+        ("_expected_type", ["str", "int", "int", "float", "datetime"])] : List (String × List String))
+    ∧ c11Defaults =
+      ([("_join", "(inner)"), ("select", "(None)"), ("query.kwdefaults", "None"), ("Selection.select.kwdefaults", "{'cast': False}"), ("Selection.__init__", "(None)"), ("LookaheadLexer.__init__", "(1024)"), ("Database.select_from", "(None,False)"), ("Database._select_raw", "(None)")] : List (String × String))
+    ∧ c11PrelexConsts =
+      (["1", "0", "(lineno,offset,text)", "None"] : List String)
+    ∧ c11FieldInitConsts =
+      (["None", "False", "(:key,:primary)", ":foreign", "True", ":integer", "-1", ""] : List String) := by
+  refine ⟨?_, ?_, ?_, ?_, ?_, ?_, ?_, ?_⟩ <;> rfl
 
 end Verif.C11
